@@ -75,7 +75,7 @@ func memGen(prop string) func(rng *core.Rng, tier string) *harness.Plan {
 
 // runMembership executes the membership plan; `after` is called after every
 // operation that changed the ledger.
-func runMembership(prop string, p *harness.Plan, after func(m *memRig, kind string), variants func(m *memRig, kind string)) (*crun, *memRig, *harness.Outcome) {
+func runMembership(prop string, p *harness.Plan, after func(m *memRig, kind string), variants func(m *memRig, kind string), setup ...func(r *crun)) (*crun, *memRig, *harness.Outcome) {
 	r, err := newClusterRun(prop, p)
 	if err != nil {
 		o := harness.NewOutcome()
@@ -83,6 +83,9 @@ func runMembership(prop string, p *harness.Plan, after func(m *memRig, kind stri
 		return nil, nil, o
 	}
 	c := r.c
+	for _, f := range setup {
+		f(r)
+	}
 	if err := c.Boot(); err != nil {
 		r.c.Close()
 		r.out.ToolError = err.Error()
@@ -129,6 +132,20 @@ func runMembership(prop string, p *harness.Plan, after func(m *memRig, kind stri
 		case "mem.ordinary":
 			if it := m.ordinary(int(op.A)); it != nil {
 				done = m.settle(it, 10*time.Second)
+			}
+		case "mem.bulk":
+			// many ordinary snapshots in a row (so that consensus operations lie far apart in the topology)
+			var last *injected
+			for k := int64(0); k < op.A && !c.Halt; k++ {
+				if it := m.ordinary(int(op.B + k%3)); it != nil {
+					last = it
+				}
+				if k%50 == 49 {
+					c.Run(c.Q.Now + 200*time.Millisecond)
+				}
+			}
+			if last != nil {
+				done = m.settle(last, 60*time.Second)
 			}
 		case "mem.restart":
 			n := r.node(op.N)
